@@ -72,6 +72,16 @@ def gen_cases(ctx):
             if kind == "partition":
                 c["mod"] = rng.choice([k, k, k, k + 1, max(1, k - 1)])
             cases.append(c)
+    # paced scenarios: large sources, a consumer that stalls and refills in chunks, sources that keep producing
+    for _ in range(12 if ctx.thorough else 5):
+        kind = rng.choice(["merge", "concat", "zip", "zip"])
+        k = rng.choice([2, 2, 3])
+        srcs = [tagged_source(rng, i, rng.choice([400, 700, 1000, 1500])) for i in range(k)]
+        c = {"kind": kind, "sources": srcs, "stall_every": rng.choice([20, 50, 100, 160]), "stall_ms": rng.choice([2, 5, 10]),
+             "pace_every": [rng.choice([0, 16, 40, 64]) for _ in range(k)], "pace_us": [rng.choice([200, 500, 1500]) for _ in range(k)], "paced": True}
+        if kind == "zip":
+            c["pace_every"][rng.randrange(k)] = 0          # one input runs ahead
+        cases.append(c)
     for i, c in enumerate(cases):
         c["id"] = i
     return cases
@@ -184,6 +194,98 @@ STEP_CORPUS = [
 ]
 
 
+def gen_queue_cases(ctx):
+    """long push/pop patterns for the FIFO queue type: backlog, partial drain (so that a dead prefix stays parked
+       at the front), more pushes across capacity boundaries, full drains, random mixes"""
+    rng = ctx.rng
+    cases = []
+    n = 60 if ctx.thorough else 24
+    for ci in range(n):
+        ops, size, nextv = [], 0, 0
+
+        def push(k):
+            nonlocal size, nextv
+            for _ in range(k):
+                ops.append(nextv)
+                nextv += 1
+            size += k
+
+        def pop(k):
+            nonlocal size
+            k = min(k, size)
+            ops.extend([-1] * k)
+            size -= k
+        for _phase in range(rng.randint(3, 9)):
+            style = rng.random()
+            if style < 0.45:
+                push(rng.choice([1, 7, 40, 64, 100, 200, 256, 300, 513, 700]))
+                pop(rng.choice([0, 1, 15, 16, 17, 20, 31, 60]) if size else 0)      # partial drain: head stays > 0
+                push(rng.choice([1, 10, 36, 56, 57, 120, 260]))                        # crosses len == cap
+            elif style < 0.7:
+                pop(size // 2 + rng.choice([-2, -1, 0, 1]))                           # around pop's own compaction point
+                push(rng.randint(1, 30))
+            elif style < 0.85:
+                pop(size)
+                push(rng.randint(0, 5))
+            else:
+                for _ in range(rng.randint(10, 200)):
+                    if size and rng.random() < 0.45:
+                        pop(1)
+                    else:
+                        push(1)
+        pop(size)
+        cases.append({"id": ci, "ops": ops})
+    return cases
+
+
+def queue_oracle(c, r):
+    from collections import deque
+    q, want = deque(), []
+    for op in c["ops"]:
+        if op >= 0:
+            q.append(op)
+            want.append(len(q))
+        elif q:
+            want += [q.popleft(), len(q)]
+        else:
+            want += [-1, 0]
+    if r["obs"] != want:
+        i = next(i for i, (a, b) in enumerate(zip(r["obs"] + [None], want + [None])) if a != b)
+        return "queue is not FIFO: observation %d is %s, a FIFO gives %s (after %d operations)" % (i, (r["obs"] + [None])[i], (want + [None])[i], len(c["ops"]))
+    return None
+
+
+def gen_long_fan_script(rng, kind, n):
+    """a backlog inside the junction actor, drained in small demand chunks while the sources keep delivering"""
+    script, left = [], [rng.randint(150, 420) for _ in range(n)]
+    nextk = [0] * n
+    sent = 0
+    total = sum(left)
+    cur = 0
+    while sum(left) > 0:
+        # a burst of values (for zip: mostly one slot running ahead; concat: the active slot only)
+        burst = rng.choice([20, 56, 64, 100, 200, 260])
+        for _ in range(burst):
+            live = [i for i in range(n) if left[i] > 0]
+            if not live:
+                break
+            if kind == "concat":
+                i = live[0]
+            elif kind == "zip" and rng.random() < 0.85:
+                i = live[cur % len(live)]
+            else:
+                i = rng.choice(live)
+            script.append({"t": "val", "slot": i, "v": 16 * nextk[i] + i})
+            nextk[i] += 1
+            left[i] -= 1
+            if left[i] == 0:
+                script.append({"t": "done", "slot": i})
+        cur += 1
+        script.append({"t": "req", "n": rng.choice([16, 17, 20, 24, 31, 40])})     # small chunk: partial drain
+    script.append({"t": "req", "n": total + 5})
+    return script
+
+
 def gen_step_cases(ctx):
     rng = ctx.rng
     n = 1000 if ctx.thorough else 300
@@ -200,6 +302,9 @@ def gen_step_cases(ctx):
             if kind == "partition":
                 c["mod"] = rng.choice([k, k, k + 1])
         cases.append(c)
+    for kind in ["merge", "concat", "zip", "zip", "merge", "zip"] * (2 if ctx.thorough else 1):
+        k = rng.choice([1, 2, 2, 3])
+        cases.append({"kind": kind, "n": k, "script": gen_long_fan_script(rng, kind, k), "long": True})
     for i, c in enumerate(cases):
         c["id"] = i
     return cases
@@ -228,22 +333,28 @@ def coq_msg(kind, m):
     raise ValueError(t)
 
 
-def step_model_term(c):
+def step_model_term(c, ns=False):
     script = "[" + "; ".join(coq_msg(c["kind"], m) for m in c["script"]) + "]"
     k = c["kind"]
+    sfx = "_ns" if ns else ""
     if k in ("merge", "concat", "zip"):
-        return "steps_%s %d%%nat %s" % (k, c["n"], script)
+        return "steps_%s%s %d%%nat %s" % (k, sfx, c["n"], script)
     hk = {"broadcast": "Broadcast", "balance": "Balance"}.get(k) or "(Partition %s)" % su.zl(c["mod"])
-    return "steps_hub %s %d%%nat %s" % (hk, c["n"], script)
+    return "steps_hub%s %s %d%%nat %s" % (sfx, hk, c["n"], script)
+
+
+def has_nostate(r):
+    return any(s.get("state") and s["state"][0] == -424242 for s in r.get("steps") or [])
 
 
 def enc_obs(r):
+    ns = has_nostate(r)
     out = [list(r.get("wire") or [])]
     for s in r.get("steps") or []:
         if s.get("state") is None and not s.get("alive"):
             out.append([0])
         else:
-            out.append([1 if s["alive"] else 0] + list(s["state"] or []) + [-7] + list(s.get("out") or []))
+            out.append([1 if s["alive"] else 0] + ([] if ns else list(s["state"] or [])) + [-7] + list(s.get("out") or []))
     return out
 
 
@@ -343,7 +454,15 @@ def step_oracle(c, r):
         if not s["alive"]:
             break
     if k in ("merge", "concat") and sent != arrived[:len(sent)]:
-        return "%s source does not forward values in arrival order" % k
+        i = next(i for i, (a, b) in enumerate(zip(sent, arrived)) if a != b) if len(sent) <= len(arrived) else len(arrived)
+        return "%s source does not forward values in arrival order: output %d is %s, value number %d to arrive was %s" % (
+            k, i, sent[i], i, arrived[i] if i < len(arrived) else None)
+    if k == "zip" and n > 0:
+        per = [[m["v"] for m in c["script"][:len(steps)] if m["t"] == "val" and m.get("slot", 0) == i_] for i_ in range(n)]
+        for j, tup in enumerate(sent):
+            want = [per[i_][j] if j < len(per[i_]) else None for i_ in range(n)]
+            if tup != want:
+                return "zip source: tuple %d is %s, the %d-th values delivered by the sources are %s" % (j, tup, j, want)
     return None
 
 
@@ -362,7 +481,11 @@ def run(ctx):
     with open(os.path.join(ctx.work, "c46_steps_in.jsonl"), "w") as f:
         for c in scases:
             f.write(json.dumps(c) + "\n")
-    for fn in ("c46_out.jsonl", "c46_steps_out.jsonl", "c46_out2.jsonl"):
+    qcases = gen_queue_cases(ctx)
+    with open(os.path.join(ctx.work, "c46_queue_in.jsonl"), "w") as f:
+        for c in qcases:
+            f.write(json.dumps(c) + "\n")
+    for fn in ("c46_out.jsonl", "c46_steps_out.jsonl", "c46_out2.jsonl", "c46_queue_out.jsonl"):
         p = os.path.join(ctx.work, fn)
         if os.path.exists(p):
             os.remove(p)
@@ -370,7 +493,8 @@ def run(ctx):
     rc, out = ctx.go_test("stream", "^TestVerifC46", files, env={"VERIF_PAR": "1"}, timeout=2400 if ctx.thorough else 1500)
     res = {r["id"]: r for r in read_jsonl(os.path.join(ctx.work, "c46_out.jsonl"))}
     sres = {r["id"]: r for r in read_jsonl(os.path.join(ctx.work, "c46_steps_out.jsonl"))}
-    if rc != 0 or len(res) != len(cases) or len(sres) != len(scases):
+    qres = {r["id"]: r for r in read_jsonl(os.path.join(ctx.work, "c46_queue_out.jsonl"))}
+    if rc != 0 or len(res) != len(cases) or len(sres) != len(scases) or len(qres) != len(qcases):
         ctx.tie_broken("go-harness stream junctions (build or run failed)", out)
     slow = [c for c in cases if c["id"] in res and not res[c["id"]]["done"]]
     if slow and len(slow) <= 12:
@@ -409,6 +533,17 @@ def run(ctx):
             ctx.violation("junction-actor:%s" % c["kind"], "%s actor driven step by step: %s" % (c["kind"], why),
                           {"case": c, "observed": r})
 
+    n_q = 0
+    for c in qcases:
+        r = qres.get(c["id"])
+        if r is None:
+            continue
+        why = queue_oracle(c, r)
+        if why and n_q < 2:
+            n_q += 1
+            ctx.violation("junction-queue:fifo", "stream.queue (buffer of Merge/Concat/Zip) driven sequentially: " + why,
+                          {"ops (v>=0 push v, -1 pop)": c["ops"], "observed": r["obs"][:400]})
+
     ok_tie, tout = ctx.coq_build(["theories/C46/Tie.vo"])
     if not ok_tie:
         ctx.tie_broken("C46/Model.v or C46/Tie.v does not compile", tout)
@@ -439,17 +574,25 @@ def run(ctx):
             r = sres.get(c["id"])
             if r is None:
                 continue
-            slines.append("(%d, zll_eqb (%s) %s)" % (c["id"], step_model_term(c), zll(enc_obs(r))))
+            slines.append("(%d, zll_eqb (%s) %s)" % (c["id"], step_model_term(c, has_nostate(r)), zll(enc_obs(r))))
+        qlines = []
+        for c in qcases:
+            r = qres.get(c["id"])
+            if r is None:
+                continue
+            ops = "[" + "; ".join("QPop" if o < 0 else "QPush %d" % o for o in c["ops"]) + "]"
+            qlines.append("(%d, zl_eqb (qrun [] %s) %s)" % (c["id"], ops, su.coq_zlist(r["obs"])))
         body = """From Coq Require Import ZArith List Bool. Import ListNotations.
 From GV Require Import C46.Model C46.Tie.
 Open Scope Z_scope.
 Definition graphs : list (Z * bool) := [%s].
 Definition steps : list (Z * bool) := [%s].
+Definition queues : list (Z * bool) := [%s].
 Definition summary :=
   (length graphs, map fst (filter (fun x => negb (snd x)) graphs),
-   length steps, map fst (filter (fun x => negb (snd x)) steps)).
+   length steps, (map fst (filter (fun x => negb (snd x)) steps)) ++ (map (fun x => 100000 + fst x) (filter (fun x => negb (snd x)) queues))).
 Eval vm_compute in summary.
-""" % (";\n ".join(lines), ";\n ".join(slines))
+""" % (";\n ".join(lines), ";\n ".join(slines), ";\n ".join(qlines))
         rc2, o2 = ctx.coq_eval("cases_C46", body, timeout=900)
         m_ = re.search(r"=\s*(\(.*\))\s*:", " ".join(o2.split()))
         if rc2 != 0 or not m_:
@@ -461,13 +604,17 @@ Eval vm_compute in summary.
             dis = sorted(set(bad_graphs) ^ set(bad_py))
             if dis:
                 ctx.tie_broken("Coq junction specifications vs Python oracle disagree", {"ids": dis[:10], "case": cases[dis[0]]})
+            bad_q = [b - 100000 for b in bad_steps if b >= 100000]
+            bad_steps = [b for b in bad_steps if b < 100000]
+            if bad_q:
+                ctx.tie_broken("queue conformance stream.queue vs the list model (C46/Tie.v qrun)", {"cases": bad_q[:5]})
             if bad_steps:
                 c = scases[bad_steps[0]]
                 rc3, o3 = ctx.coq_eval("diag_C46", """From Coq Require Import ZArith List Bool. Import ListNotations.
 From GV Require Import C46.Model C46.Tie.
 Open Scope Z_scope.
 Eval vm_compute in (%s).
-""" % step_model_term(c))
+""" % step_model_term(c, has_nostate(sres[c["id"]])))
                 ctx.tie_broken("actor-step conformance %s vs C46/Model.v" % c["kind"],
                                {"mismatching_cases": len(bad_steps), "first_case": c, "implementation": enc_obs(sres[c["id"]]),
                                 "model": " ".join(o3.split())[-3000:]})
@@ -491,7 +638,8 @@ Eval vm_compute in (%s).
         skinds[c["kind"]] = skinds.get(c["kind"], 0) + 1
         distinct.add(canon_hash([c["kind"], c["n"], c["script"]]))
     ctx.coverage.update({
-        "evaluations": len(res) + sum(len(r.get("steps") or []) for r in sres.values()),
+        "evaluations": len(res) + sum(len(r.get("steps") or []) for r in sres.values()) + sum(len(c["ops"]) for c in qcases),
+        "queue_cases": len(qcases), "queue_ops": sum(len(c["ops"]) for c in qcases),
         "distinct_nontrivial": len(distinct),
         "rule": "black-box: seeded graphs, 0..5 sources / 1..5 branches, lengths 0,1,..,demand window 224+-1,500; non-trivial = at least one element; step: scripts of 3..30 messages per junction actor, distinct by (kind, n, script)",
         "graphs_by_kind": kinds, "branch_count_histogram": branches, "step_cases_by_kind": skinds,
@@ -500,7 +648,7 @@ Eval vm_compute in (%s).
     })
 
 
-THEOREMS = ["C46_merge_is_an_interleaving", "C46_concat_is_append", "C46_zip_is_positional", "C46_hub_routes_every_element"]
+THEOREMS = ["C46_merge_is_an_interleaving", "C46_concat_is_append", "C46_zip_is_positional", "C46_hub_routes_every_element", "C46_queue_is_fifo"]
 
 META = {
     "ready": True,
@@ -513,7 +661,8 @@ META = {
             "shortest source at completion; hubs never drop, never serve a branch beyond its demand, Broadcast gives every branch the consumed prefix, Balance routes "
             "each element to exactly one branch, Partition routes v to branch v mod m; completion signalled at most once. Every run: ~75 junction graphs (0..5 sources / "
             "1..5 branches, lengths around the demand window) through the public API judged by the Coq specifications (vm_compute) and by independent Python checks; "
-            "~300 message scripts driven through the REAL junction actors between probes, every step compared with the Coq handlers.",
+            "~300 message scripts (plus long backlog/partial-drain scripts of several hundred messages) driven through the REAL junction actors between probes, every step compared with the Coq handlers; "
+            "the real stream.queue type driven through long push/pop patterns against the list model; paced graphs (stalling consumer, sources of 400..1500 elements that keep producing).",
     "design_ref": "DESIGN.md 7/C46",
     "level_note": "Trusted: Coq kernel, the Go harness, per-sender FIFO of the actor runtime, the linear sub-pipelines (C45). Assumes error-free graphs without branch cancellation "
                   "(with a cancelling branch Balance/Partition drop the elements already requested on its behalf - observed, not part of the property). Liveness is checked per run by the stall oracle only.",
